@@ -96,9 +96,10 @@ func casesFor(c ksrig.FaultCall, extraTorn int) []faultCase {
 }
 
 type monitor struct {
-	r  *ev.Run
-	fx *fixtures
-	mu sync.Mutex
+	r   *ev.Run
+	fx  *fixtures
+	rfx *ringFixtures // ring-level layer (ring.go)
+	mu  sync.Mutex
 }
 
 // Run is the C08 monitor.
@@ -112,7 +113,7 @@ func Run(r *ev.Run) {
 	}
 	logrus.StandardLogger().ExitFunc = func(code int) { panic(fmt.Sprintf("logrus.Fatal -> os.Exit(%d)", code)) }
 	rng := gen.New(r.Seed, "c08")
-	m := &monitor{r: r, fx: buildFixtures()}
+	m := &monitor{r: r, fx: buildFixtures(), rfx: buildRingFixtures(r.Seed)}
 	ops := buildOps(m.fx)
 	hs := histories(1+rng.Intn(2), rng.Intn(2))
 	extraTorn := 2 + rng.Intn(1000)
@@ -206,28 +207,58 @@ func Run(r *ev.Run) {
 		bases[k] = w
 	}
 
+	// ring-level layer (ring.go): api.MutableKeyRing operations on one kept-open handle, both v2 back ends
+	var tasks []func()
+	var ringBases []*ringBase
+	nRing := 0
+	for _, kind := range []string{"v2mem", "v2dir"} {
+		for _, h := range m.rfx.histories() {
+			if kind == "v2dir" && !r.Thorough() && !h.quick {
+				continue
+			}
+			rb := m.buildRingBase(kind, h)
+			ringBases = append(ringBases, rb)
+			for _, fop := range h.ops {
+				if kind == "v2dir" && !r.Thorough() && !fop.quick {
+					continue
+				}
+				kind, rj := kind, ringJob{hist: h, fop: fop}
+				tasks = append(tasks, func() { m.runRingJob(kind, rj, rb, extraTorn) })
+				nRing++
+			}
+		}
+	}
+	for _, j := range jobs {
+		j := j
+		tasks = append(tasks, func() { m.runJob(j, bases[baseKey{j.kind, j.noLinks, j.cache, j.hist.name}], extraTorn) })
+	}
+
 	workers := 6
-	ch := make(chan job)
+	ch := make(chan func())
 	var wg sync.WaitGroup
 	for i := 0; i < workers; i++ {
 		wg.Add(1)
 		go func() {
 			defer wg.Done()
-			for j := range ch {
-				m.runJob(j, bases[baseKey{j.kind, j.noLinks, j.cache, j.hist.name}], extraTorn)
+			for t := range ch {
+				t()
 			}
 		}()
 	}
-	for _, j := range jobs {
-		ch <- j
+	for _, t := range tasks {
+		ch <- t
 	}
 	close(ch)
 	wg.Wait()
 	for _, w := range bases {
 		w.dispose()
 	}
+	for _, rb := range ringBases {
+		rb.w.dispose()
+	}
 
 	r.Extra("jobs", len(jobs))
+	r.Extra("ring_jobs", nRing)
 	r.SetExhaustive(r.Thorough()) // thorough: every (format, history, operation) combination × every call × every mode; quick: a fixed subset of the combinations
 	// non-vacuity: a run that injected nothing, saw no crash snapshot, no retry, no old/new outcome must fail
 	r.RequireAtLeast("fault_runs_fired", int64(r.Pick(1000, 4000)))
